@@ -25,6 +25,7 @@ type Config struct {
 	RepoPrefix  string // module path of the code under test
 	MapOrderAll bool   // range over maps explores all orders
 	InitFuncs   func(pkgPath string) bool // run init#N functions of these packages too
+	CrossCmd    string                    // independent solver re-deciding unsat one-shot queries (thorough tier)
 }
 
 type Violation struct {
@@ -57,6 +58,8 @@ type HarnessResult struct {
 	Samples      []string
 	MaxTrail     int
 	Records      []string
+	CrossChecked int
+	CrossUnknown int
 	Notes        []string
 }
 
@@ -180,6 +183,7 @@ func NewExec(prog *ssa.Program, solverKind string, timeoutMs int, cfg Config) (*
 	if err != nil {
 		return nil, err
 	}
+	s.CrossCmd = cfg.CrossCmd
 	if cfg.MaxLoop == 0 {
 		cfg.MaxLoop = 40
 	}
@@ -264,6 +268,7 @@ func (e *Exec) RunHarness(fn *ssa.Function) *HarnessResult {
 		}
 	}
 	e.solver.PopTo(0)
+	res.CrossChecked, res.CrossUnknown = e.solver.CrossChecked, e.solver.CrossUnknown
 	res.Queries = e.solver.Queries - q0
 	res.SolverTime = (e.solver.Time - t0).Seconds()
 	if len(e.solver.Errors) > 0 {
